@@ -866,6 +866,19 @@ impl Synchronizer {
     }
 }
 
+/// The compatible verification is recursive and it never looks inside an extra field: a block
+/// which passed it may have extra fields in any nested table and anything as its own extra field.
+///
+/// The only thing a block is allowed to have beyond the `Block` schema is the extension, so it
+/// has to be either a strict `Block` or a strict `BlockV1`.
+fn is_strict_block(block: packed::BlockReader<'_>) -> bool {
+    if block.has_extra_fields() {
+        packed::BlockV1Reader::verify(block.as_slice(), false).is_ok()
+    } else {
+        packed::BlockReader::verify(block.as_slice(), false).is_ok()
+    }
+}
+
 #[async_trait]
 impl CKBProtocolHandler for Synchronizer {
     async fn init(&mut self, nc: Arc<dyn CKBProtocolContext + Sync>) {
@@ -909,6 +922,21 @@ impl CKBProtocolHandler for Synchronizer {
                             String::from(
                                 "send us a malformed message: \
                                  too many fields in SendBlock",
+                            ),
+                        );
+                        return;
+                    } else if !is_strict_block(reader.block()) {
+                        info!(
+                            "A malformed message from peer {}: \
+                             malformed block in SendBlock",
+                            peer_index
+                        );
+                        nc.ban_peer(
+                            peer_index,
+                            BAD_MESSAGE_BAN_TIME,
+                            String::from(
+                                "send us a malformed message: \
+                                 malformed block in SendBlock",
                             ),
                         );
                         return;
